@@ -333,7 +333,7 @@ theorem balanced_same (is : List Instr) (hb : Balanced is) (s : St) (hs : Sync s
         rw [c8]; simp [exec]
       have hw1 : (runI (exec s (.limitBegin lim)) body).w = s.w := by rw [c1]; simp [exec]
       unfold Sync at hs
-      simp only [exec, hst, hw1]
+      simp only [exec]
       cases hw : s.w
       · simp only [hw, Bool.false_eq_true, ↓reduceIte] at hs ⊢
         constructor <;> simp_all [exec]
@@ -380,7 +380,7 @@ theorem balanced_writer_call (b0 : Buf) (hv : b0.valid) (hc : b0.closed = false)
   unfold callIO finalSave
   split
   · exact ⟨by rw [c7, hlen], by rw [c5, hcl]⟩
-  · simp only [hw, ↓reduceIte]
+  · dsimp only
     exact ⟨by rw [c7, hlen], by rw [c5, hcl]⟩
 
 /-! ### `io_forget_history` and `io_bind` restore what they saved -/
